@@ -1,7 +1,1020 @@
 package main
 
-// Replay of solver counterexamples against the real code (go test -overlay).
+// Replay of solver counterexamples against the real code.
+//
+// For a failed obligation whose solver answer is `sat`, the entry state of the model (parameters,
+// receiver and the part of the initial heap reachable from them) is read back with get-value, turned
+// into Go values, and the REAL function is executed on them in an in-package test that is injected with
+// `go test -overlay` (nothing is written into /repo). The clause that failed is executed too: the
+// synthetic specification functions the engine type-checks are ordinary Go, so the same text that was
+// translated to SMT is compiled and run. A counterexample counts as replayed ("confirmed") only if
+//   - every `requires` clause of the function evaluates to true on the reified input, and
+//   - postcondition / at-return assertion: the function returns normally and the clause evaluates to false;
+//     safety obligation: the input could be reified completely and the function panics.
+// Everything else (clause not executable: quantifiers, ghost functions, locals; input not reifiable:
+// interfaces, function values, external objects; solver answer unknown) is reported as
+// no-failing-input-found.
 
+import (
+	"bytes"
+	"encoding/json"
+	"fmt"
+	"go/ast"
+	"go/types"
+	"os"
+	"os/exec"
+	"path/filepath"
+	"regexp"
+	"sort"
+	"strconv"
+	"strings"
+	"time"
+)
+
+type entryVal struct {
+	Role string // recv, param0, param1, ...
+	Name string
+	Term string
+	Sort string
+	Type types.Type
+}
+
+// ---------------------------------------------------------------------------
+// s-expressions
+
+type sx struct {
+	atom string
+	list []*sx
+	isL  bool
+}
+
+func parseSexprs(s string) []*sx {
+	var out []*sx
+	i := 0
+	var parse func() *sx
+	skip := func() {
+		for i < len(s) && (s[i] == ' ' || s[i] == '\n' || s[i] == '\t' || s[i] == '\r') {
+			i++
+		}
+	}
+	parse = func() *sx {
+		skip()
+		if i >= len(s) {
+			return nil
+		}
+		if s[i] == '(' {
+			i++
+			n := &sx{isL: true}
+			for {
+				skip()
+				if i >= len(s) {
+					return n
+				}
+				if s[i] == ')' {
+					i++
+					return n
+				}
+				c := parse()
+				if c == nil {
+					return n
+				}
+				n.list = append(n.list, c)
+			}
+		}
+		if s[i] == '"' {
+			j := i + 1
+			for j < len(s) {
+				if s[j] == '"' {
+					if j+1 < len(s) && s[j+1] == '"' {
+						j += 2
+						continue
+					}
+					break
+				}
+				j++
+			}
+			a := s[i : j+1]
+			i = j + 1
+			return &sx{atom: a}
+		}
+		if s[i] == '|' {
+			j := strings.IndexByte(s[i+1:], '|')
+			a := s[i : i+j+2]
+			i += j + 2
+			return &sx{atom: a}
+		}
+		j := i
+		for j < len(s) && !strings.ContainsRune(" \n\t\r()", rune(s[j])) {
+			j++
+		}
+		a := s[i:j]
+		i = j
+		return &sx{atom: a}
+	}
+	for {
+		skip()
+		if i >= len(s) {
+			break
+		}
+		if s[i] == ')' {
+			i++
+			continue
+		}
+		n := parse()
+		if n == nil {
+			break
+		}
+		out = append(out, n)
+	}
+	return out
+}
+
+func (n *sx) String() string {
+	if !n.isL {
+		return n.atom
+	}
+	var ps []string
+	for _, c := range n.list {
+		ps = append(ps, c.String())
+	}
+	return "(" + strings.Join(ps, " ") + ")"
+}
+
+// smtString decodes an SMT-LIB string literal
+func smtString(a string) (string, bool) {
+	if len(a) < 2 || a[0] != '"' {
+		return "", false
+	}
+	body := strings.ReplaceAll(a[1:len(a)-1], `""`, `"`)
+	re := regexp.MustCompile(`\\u\{([0-9a-fA-F]+)\}|\\u([0-9a-fA-F]{4})|\\x([0-9a-fA-F]{2})`)
+	body = re.ReplaceAllStringFunc(body, func(m string) string {
+		sub := re.FindStringSubmatch(m)
+		h := sub[1] + sub[2] + sub[3]
+		v, err := strconv.ParseInt(h, 16, 32)
+		if err != nil {
+			return m
+		}
+		return string(rune(v))
+	})
+	return body, true
+}
+
+func smtInt(n *sx) (int64, bool) {
+	if !n.isL {
+		v, err := strconv.ParseInt(n.atom, 10, 64)
+		return v, err == nil
+	}
+	if len(n.list) == 2 && n.list[0].atom == "-" {
+		v, ok := smtInt(n.list[1])
+		return -v, ok
+	}
+	return 0, false
+}
+
+// ---------------------------------------------------------------------------
+// model access
+
+type modelQuery struct {
+	reg     *Registry
+	inst    ObInstance
+	dir     string
+	pinned  []string // (= term value) facts from earlier rounds
+	cache   map[string]*sx
+	rounds  int
+	lastRaw string
+}
+
+func (q *modelQuery) get(terms []string) bool {
+	var need []string
+	seen := map[string]bool{}
+	for _, t := range terms {
+		if _, ok := q.cache[t]; !ok && !seen[t] {
+			need = append(need, t)
+			seen[t] = true
+		}
+	}
+	if len(need) == 0 {
+		return true
+	}
+	q.rounds++
+	var b strings.Builder
+	b.WriteString(q.reg.prelude())
+	for _, f := range q.inst.PC {
+		b.WriteString("(assert " + f + ")\n")
+	}
+	b.WriteString("(assert (not " + q.inst.Goal + "))\n")
+	for _, p := range q.pinned {
+		b.WriteString("(assert " + p + ")\n")
+	}
+	b.WriteString("(check-sat)\n(get-value (" + strings.Join(need, " ") + "))\n")
+	file := filepath.Join(q.dir, fmt.Sprintf("model%d.smt2", q.rounds))
+	os.WriteFile(file, []byte(b.String()), 0o644)
+	for _, cmd := range [][]string{solverCmds[0], solverCmds[1]} {
+		_, raw, _ := runSolver(cmd, file, 10)
+		q.lastRaw = raw
+		lines := strings.SplitN(strings.TrimSpace(raw), "\n", 2)
+		if len(lines) < 2 || strings.TrimSpace(lines[0]) != "sat" {
+			continue
+		}
+		sxs := parseSexprs(lines[1])
+		if len(sxs) == 0 || !sxs[0].isL || len(sxs[0].list) != len(need) {
+			continue
+		}
+		for i, pair := range sxs[0].list {
+			if pair.isL && len(pair.list) == 2 {
+				q.cache[need[i]] = pair.list[1]
+			}
+		}
+		// keep later rounds consistent with the values already read
+		for _, t := range need {
+			if v, ok := q.cache[t]; ok {
+				vs := v.String()
+				if !strings.Contains(vs, "lambda") && !strings.Contains(vs, "as-array") && !strings.Contains(vs, "as const") && len(vs) < 200 {
+					q.pinned = append(q.pinned, "(= "+t+" "+vs+")")
+				}
+			}
+		}
+		return true
+	}
+	return false
+}
+
+// ---------------------------------------------------------------------------
+// reification: model value -> Go source
+
+type reifier struct {
+	prog     *Program
+	reg      *Registry
+	q        *modelQuery
+	pkg      *types.Package // package of the test
+	imports  map[string]string
+	stmts    []string
+	objs     map[string]string // "<typekey>@<ref>" -> variable
+	complete bool
+	notes    []string
+	nvar     int
+	mapKeys  []string // candidate keys (SMT string literals)
+}
+
+func (r *reifier) qual(p *types.Package) string {
+	if p == r.pkg {
+		return ""
+	}
+	r.imports[p.Path()] = p.Name()
+	return p.Name()
+}
+
+func (r *reifier) typeStr(t types.Type) string { return types.TypeString(t, r.qual) }
+
+func (r *reifier) incomplete(why string) {
+	r.complete = false
+	r.notes = append(r.notes, why)
+}
+
+// terms needed to reify a value of type t held in `term` (static, depth-bounded)
+func (r *reifier) collect(term string, t types.Type, depth int, out *[]string) {
+	if depth > 4 || t == nil {
+		return
+	}
+	srt := r.reg.sortOf(t)
+	switch ut := types.Unalias(t).Underlying().(type) {
+	case *types.Basic:
+		*out = append(*out, term)
+	case *types.Pointer:
+		*out = append(*out, term)
+		st, ok := types.Unalias(ut.Elem()).Underlying().(*types.Struct)
+		if !ok {
+			return
+		}
+		for i := 0; i < st.NumFields(); i++ {
+			f := st.Field(i)
+			h := "H_" + sanitize("F:"+typeKey(ut.Elem())+"."+f.Name()) + "_0"
+			if _, declared := r.reg.funDecls[h]; !declared {
+				continue
+			}
+			r.collect("(select "+h+" "+term+")", f.Type(), depth+1, out)
+		}
+	case *types.Struct:
+		si := r.reg.structInfoOf(srt)
+		if si == nil {
+			return
+		}
+		for _, f := range si.fields {
+			r.collect(fmt.Sprintf("(%s_%s %s)", srt, sanitize(f.name), term), f.typ, depth+1, out)
+		}
+	case *types.Slice:
+		if !r.reg.isSlice(srt) {
+			return
+		}
+		*out = append(*out, "(len_"+srt+" "+term+")", "(nil_"+srt+" "+term+")")
+		for i := 0; i < 4; i++ {
+			r.collect(fmt.Sprintf("(select (arr_%s %s) %d)", srt, term, i), ut.Elem(), depth+1, out)
+		}
+	case *types.Map, *types.Interface, *types.Signature, *types.Chan:
+		*out = append(*out, term)
+	}
+}
+
+func (r *reifier) val(term string) *sx { return r.q.cache[term] }
+
+func (r *reifier) fresh(prefix string) string {
+	r.nvar++
+	return fmt.Sprintf("%s%d", prefix, r.nvar)
+}
+
+// build returns a Go expression for the value of type t held in term
+func (r *reifier) build(term string, t types.Type, depth int) string {
+	zero := "*new(" + r.typeStr(t) + ")"
+	if depth > 4 {
+		r.incomplete("object graph deeper than 4 levels at " + r.typeStr(t))
+		return zero
+	}
+	srt := r.reg.sortOf(t)
+	v := r.val(term)
+	switch ut := types.Unalias(t).Underlying().(type) {
+	case *types.Basic:
+		if v == nil {
+			return zero
+		}
+		switch {
+		case ut.Info()&types.IsBoolean != 0:
+			return r.typeStr(t) + "(" + v.String() + ")"
+		case ut.Info()&types.IsInteger != 0:
+			n, ok := smtInt(v)
+			if !ok {
+				r.incomplete("non-numeral model value for " + term)
+				return zero
+			}
+			if ut.Info()&types.IsUnsigned != 0 && n < 0 {
+				r.incomplete("negative model value for an unsigned parameter")
+				return zero
+			}
+			return fmt.Sprintf("%s(%d)", r.typeStr(t), n)
+		case ut.Info()&types.IsString != 0:
+			s, ok := smtString(v.atom)
+			if !ok {
+				r.incomplete("non-literal model value for " + term)
+				return zero
+			}
+			return r.typeStr(t) + "(" + strconv.Quote(s) + ")"
+		}
+		r.incomplete("basic kind not reified: " + ut.String())
+		return zero
+	case *types.Pointer:
+		if v == nil {
+			return zero
+		}
+		ref, ok := smtInt(v)
+		if !ok || ref == 0 {
+			return "nil"
+		}
+		st, isStruct := types.Unalias(ut.Elem()).Underlying().(*types.Struct)
+		if !isStruct {
+			r.incomplete("pointer to non-struct " + r.typeStr(t))
+			return "nil"
+		}
+		key := fmt.Sprintf("%s@%d", typeKey(ut.Elem()), ref)
+		if name, ok := r.objs[key]; ok {
+			return name
+		}
+		if n, ok := types.Unalias(ut.Elem()).(*types.Named); ok && n.Obj().Pkg() != nil && !strings.HasPrefix(n.Obj().Pkg().Path(), "github.com/jmattheis/goverter") {
+			r.incomplete("object of external type " + r.typeStr(ut.Elem()))
+			return "nil"
+		}
+		name := r.fresh("o")
+		r.objs[key] = name
+		r.stmts = append(r.stmts, fmt.Sprintf("%s := new(%s)", name, r.typeStr(ut.Elem())))
+		for i := 0; i < st.NumFields(); i++ {
+			f := st.Field(i)
+			if f.Pkg() != nil && f.Pkg() != r.pkg && !f.Exported() {
+				continue // not settable from this package; stays zero
+			}
+			h := "H_" + sanitize("F:"+typeKey(ut.Elem())+"."+f.Name()) + "_0"
+			if _, declared := r.reg.funDecls[h]; !declared {
+				continue // the function never reads this field: any value will do
+			}
+			e := r.build("(select "+h+" "+term+")", f.Type(), depth+1)
+			if f.Name() == "_" {
+				continue
+			}
+			r.stmts = append(r.stmts, fmt.Sprintf("%s.%s = %s", name, f.Name(), e))
+		}
+		return name
+	case *types.Struct:
+		si := r.reg.structInfoOf(srt)
+		if si == nil {
+			r.incomplete("struct without datatype " + r.typeStr(t))
+			return zero
+		}
+		name := r.fresh("s")
+		r.stmts = append(r.stmts, fmt.Sprintf("var %s %s", name, r.typeStr(t)))
+		for i, f := range si.fields {
+			if f.name == "_" || strings.HasPrefix(f.name, "_") {
+				continue
+			}
+			fv := ut.Field(i)
+			if fv.Pkg() != nil && fv.Pkg() != r.pkg && !fv.Exported() {
+				continue
+			}
+			e := r.build(fmt.Sprintf("(%s_%s %s)", srt, sanitize(f.name), term), f.typ, depth+1)
+			r.stmts = append(r.stmts, fmt.Sprintf("%s.%s = %s", name, f.name, e))
+		}
+		return name
+	case *types.Slice:
+		if !r.reg.isSlice(srt) {
+			r.incomplete("slice without datatype")
+			return zero
+		}
+		lv, nv := r.val("(len_"+srt+" "+term+")"), r.val("(nil_"+srt+" "+term+")")
+		if lv == nil {
+			return zero
+		}
+		n, _ := smtInt(lv)
+		if nv != nil && nv.atom == "true" && n == 0 {
+			return "nil"
+		}
+		if n > 4 {
+			r.incomplete("slice longer than 4 elements")
+			n = 4
+		}
+		var elems []string
+		for i := int64(0); i < n; i++ {
+			elems = append(elems, r.build(fmt.Sprintf("(select (arr_%s %s) %d)", srt, term, i), ut.Elem(), depth+1))
+		}
+		return r.typeStr(t) + "{" + strings.Join(elems, ", ") + "}"
+	case *types.Map:
+		if v == nil {
+			return zero
+		}
+		ref, ok := smtInt(v)
+		if !ok || ref == 0 {
+			return "nil"
+		}
+		key := fmt.Sprintf("map:%s@%d", r.typeStr(t), ref)
+		if name, ok := r.objs[key]; ok {
+			return name
+		}
+		name := r.fresh("m")
+		r.objs[key] = name
+		r.stmts = append(r.stmts, fmt.Sprintf("%s := %s{}", name, r.typeStr(t)))
+		kb, okb := types.Unalias(ut.Key()).Underlying().(*types.Basic)
+		if !okb || kb.Info()&types.IsString == 0 {
+			r.incomplete("map with non-string keys")
+			return name
+		}
+		ks, vs := r.reg.sortOf(ut.Key()), r.reg.sortOf(ut.Elem())
+		hd := "H_" + sanitize("MD:"+ks) + "_0"
+		hv := "H_" + sanitize("MV:"+ks+"|"+vs) + "_0"
+		if _, declared := r.reg.funDecls[hd]; !declared {
+			return name
+		}
+		// membership of the candidate keys (string literals of the query and string values of the model)
+		var terms []string
+		for _, k := range r.mapKeys {
+			terms = append(terms, fmt.Sprintf("(select (select %s %s) %s)", hd, term, k))
+		}
+		if !r.q.get(terms) {
+			r.incomplete("map contents not read back")
+			return name
+		}
+		_, hvDeclared := r.reg.funDecls[hv]
+		for i, k := range r.mapKeys {
+			if mv := r.val(terms[i]); mv == nil || mv.atom != "true" {
+				continue
+			}
+			gs, _ := smtString(k)
+			elem := "*new(" + r.typeStr(ut.Elem()) + ")"
+			if hvDeclared {
+				et := fmt.Sprintf("(select (select %s %s) %s)", hv, term, k)
+				var need []string
+				r.collect(et, ut.Elem(), depth+1, &need)
+				if r.q.get(need) {
+					elem = r.build(et, ut.Elem(), depth+1)
+				}
+			}
+			r.stmts = append(r.stmts, fmt.Sprintf("%s[%s] = %s", name, strconv.Quote(gs), elem))
+		}
+		r.notes = append(r.notes, "map "+name+": only keys among the string values of the model were read back")
+		return name
+	case *types.Interface:
+		if v == nil {
+			return zero
+		}
+		ref, ok := smtInt(v)
+		if ok && ref == 0 {
+			return "nil"
+		}
+		if types.Identical(t, types.Universe.Lookup("error").Type()) {
+			r.imports["errors"] = "errors"
+			r.notes = append(r.notes, "non-nil error reified as errors.New")
+			return `errors.New("replayed error")`
+		}
+		r.incomplete("non-nil interface value of type " + r.typeStr(t))
+		return "nil"
+	case *types.Signature, *types.Chan:
+		if v != nil {
+			if ref, ok := smtInt(v); ok && ref == 0 {
+				return "nil"
+			}
+		}
+		r.incomplete("function or channel value")
+		return "nil"
+	}
+	r.incomplete("type not reified: " + r.typeStr(t))
+	return zero
+}
+
+// ---------------------------------------------------------------------------
+// executable prelude (replaces the type-checking-only ghost vocabulary in the replay build)
+
+const execPrelude = `
+// ghost vocabulary, executable where that is possible (replay build)
+var replaySnap = map[any]any{}
+func replaySnapshot[T any](p *T) { if p != nil { c := *p; replaySnap[any(p)] = &c } }
+func implies(a, b bool) bool { return !a || b }
+func iff(a, b bool) bool { return a == b }
+func forall[T any](f func(T) bool) bool { panic("not executable: forall") }
+func exists[T any](f func(T) bool) bool { panic("not executable: exists") }
+func forall2[T, U any](f func(T, U) bool) bool { panic("not executable: forall") }
+func forall3[T, U, V any](f func(T, U, V) bool) bool { panic("not executable: forall") }
+func exists2[T, U any](f func(T, U) bool) bool { panic("not executable: exists") }
+func old[T any](x T) T { panic("not executable: old outside a rewritten clause") }
+func has[K comparable, V any](m map[K]V, k K) bool { _, ok := m[k]; return ok }
+func keys[K comparable, V any](m map[K]V) map[K]bool { r := map[K]bool{}; for k := range m { r[k] = true }; return r }
+func dynIs[T any](x any) bool { _, ok := x.(T); return ok }
+func unboxed[T any](x any) T { return x.(T) }
+func seqEq[T any](a, b []T) bool { if len(a) != len(b) { return false }; for i := range a { if !same(a[i], b[i]) { return false } }; return true }
+func typeOK[T any](x T) bool { panic("not executable: typeOK") }
+func unchangedExcept[T any](p *T, fields ...string) bool {
+	o, ok := replaySnap[any(p)]
+	if !ok { panic("not executable: no snapshot") }
+	ov, nv := replayreflect.ValueOf(o).Elem(), replayreflect.ValueOf(p).Elem()
+	for i := 0; i < nv.NumField(); i++ {
+		skip := false
+		for _, f := range fields { if f == nv.Type().Field(i).Name { skip = true } }
+		if skip { continue }
+		a := replayreflect.NewAt(ov.Field(i).Type(), replayunsafe.Pointer(ov.Field(i).UnsafeAddr())).Elem().Interface()
+		b := replayreflect.NewAt(nv.Field(i).Type(), replayunsafe.Pointer(nv.Field(i).UnsafeAddr())).Elem().Interface()
+		if !replayreflect.DeepEqual(a, b) { return false }
+	}
+	return true
+}
+func same[T any](a, b T) (r bool) {
+	defer func() { if recover() != nil { r = replayreflect.DeepEqual(a, b) } }()
+	return any(a) == any(b)
+}
+func setEq[K comparable](a, b map[K]bool) bool { for k, v := range a { if v && !b[k] { return false } }; for k, v := range b { if v && !a[k] { return false } }; return true }
+func ite[T any](c bool, a, b T) T { if c { return a }; return b }
+func allocated[T any](x T) bool { panic("not executable: allocated") }
+func isFresh[T any](x T) bool { panic("not executable: isFresh") }
+func sortedStrings(a []string) bool { for i := 1; i < len(a); i++ { if a[i-1] > a[i] { return false } }; return true }
+func permOf[T any](a, b []T) bool { panic("not executable: permOf") }
+func fst[A, B any](a A, b B) A { return a }
+func snd[A, B any](a A, b B) B { return b }
+`
+
+func execSynth(src string) string {
+	src = strings.Replace(src, ghostPrelude, execPrelude, 1)
+	src = strings.Replace(src, "import (\n", "import (\n\treplayreflect \"reflect\"\n\treplayunsafe \"unsafe\"\n", 1)
+	// ghost functions and abstract predicates have panic(0) bodies already
+	return src
+}
+
+// ---------------------------------------------------------------------------
+
+func pkgDir(prog *Program, short string) string {
+	if short == "goverter" {
+		return prog.Repo
+	}
+	return filepath.Join(prog.Repo, short)
+}
+
+// clauseExec describes how a clause can be executed from outside the function
+type clauseExec struct {
+	sf       *SpecFn
+	callArgs func(argOf func(role, name string, t types.Type) string) []string
+	oldExprs []string // source of the old(...) arguments
+	oldTypes []string
+	body     string // source of the clause with old(e_k) replaced
+	params   string // parameter list source
+	ok       bool
+	why      string
+}
+
+func (p *Program) clauseSource(sf *SpecFn) (params, body string, olds []struct{ src, typ string }, why string) {
+	src := p.SynthSrc[sf.Pkg]
+	pkg := p.Pkgs[sf.Pkg]
+	if src == "" || pkg == nil || sf.Decl == nil || sf.Decl.Body == nil || len(sf.Decl.Body.List) != 1 {
+		return "", "", nil, "no source for the clause"
+	}
+	if sf.Decl.Type.TypeParams != nil {
+		return "", "", nil, "generic clause"
+	}
+	off := func(pos interface{ IsValid() bool }) int { return 0 }
+	_ = off
+	o := func(n ast.Node, end bool) int {
+		if end {
+			return p.Fset.Position(n.End()).Offset
+		}
+		return p.Fset.Position(n.Pos()).Offset
+	}
+	ret, ok := sf.Decl.Body.List[0].(*ast.ReturnStmt)
+	if !ok || len(ret.Results) != 1 {
+		return "", "", nil, "clause body is not a single return"
+	}
+	ps := sf.Decl.Type.Params
+	if o(ps, true) > len(src) {
+		return "", "", nil, "source offsets out of range"
+	}
+	params = src[o(ps, false)+1 : o(ps, true)-1]
+	bstart, bend := o(ret.Results[0], false), o(ret.Results[0], true)
+	// locals / ghost variables referenced?
+	usedBad := ""
+	roleOf := map[*types.Var]string{}
+	k := 0
+	for _, f := range ps.List {
+		for _, n := range f.Names {
+			if v, ok := pkg.TypesInfo.Defs[n].(*types.Var); ok && k < len(sf.Roles) {
+				roleOf[v] = sf.Roles[k]
+			}
+			k++
+		}
+	}
+	type repl struct {
+		from, to int
+		text     string
+	}
+	var repls []repl
+	ast.Inspect(ret.Results[0], func(n ast.Node) bool {
+		switch n := n.(type) {
+		case *ast.Ident:
+			if v, ok := pkg.TypesInfo.Uses[n].(*types.Var); ok {
+				if role, ok := roleOf[v]; ok {
+					kind := role[:strings.Index(role, ":")]
+					if kind == "local" || kind == "ghost" || kind == "callarg" || kind == "bind" {
+						usedBad = role
+					}
+				}
+			}
+		case *ast.CallExpr:
+			if id, ok := n.Fun.(*ast.Ident); ok && id.Name == "old" && len(n.Args) == 1 {
+				if f, ok := pkg.TypesInfo.Uses[id].(*types.Func); ok && isGhostVocabulary(f) {
+					t := pkg.TypesInfo.TypeOf(n.Args[0])
+					ts := types.TypeString(t, qualifierFor(pkg.Types))
+					olds = append(olds, struct{ src, typ string }{src[o(n.Args[0], false):o(n.Args[0], true)], ts})
+					repls = append(repls, repl{o(n, false), o(n, true), fmt.Sprintf("replayOld[%d].(%s)", len(olds)-1, ts)})
+					return false
+				}
+			}
+		}
+		return true
+	})
+	if usedBad != "" {
+		return "", "", nil, "clause mentions " + usedBad + " (not observable from outside the function)"
+	}
+	sort.Slice(repls, func(i, j int) bool { return repls[i].from > repls[j].from })
+	body = src[bstart:bend]
+	for _, r := range repls {
+		body = body[:r.from-bstart] + r.text + body[r.to-bstart:]
+	}
+	return params, body, olds, ""
+}
+
+func isReplayKind(kind string) string {
+	switch kind {
+	case "post":
+		return "post"
+	case "assert":
+		return "post"
+	case "nil", "index", "slice", "panic", "assert-type", "nilmap", "div", "call-pre":
+		return "safety"
+	}
+	return ""
+}
+
+// tryReplay: see the comment at the top of the file.
 func tryReplay(prog *Program, cfg *RunCfg, o *Obligation, r *UnitResult) (bool, string) {
-	return false, "no reifier for this function: counterexample not replayed (model and SMT file attached)"
+	mode := isReplayKind(o.Kind)
+	if mode == "" {
+		return false, "obligations of kind " + o.Kind + " are not replayed (mid-execution state)"
+	}
+	if mode == "safety" && o.Kind == "call-pre" && (o.Clause == nil || !strings.Contains(strings.Join(o.Props, " "), "C13")) {
+		return false, "precondition of a callee: not observable from outside the function"
+	}
+	fi := prog.Funcs[r.Key]
+	if fi == nil || fi.Obj == nil || len(r.Entry) == 0 && fi.Obj.Type().(*types.Signature).Params().Len() > 0 {
+		return false, "no entry state recorded for " + r.Key
+	}
+	if fi.Decl.Type.TypeParams != nil || (fi.Decl.Recv != nil && hasTypeParams(fi.Obj)) {
+		return false, "generic function: not replayed"
+	}
+	for _, e := range r.UsedExt {
+		if strings.HasPrefix(e, "os.") || strings.Contains(e, "packages.Load") || strings.HasPrefix(e, "flag.") {
+			return false, "function has external effects (" + e + "): not replayed"
+		}
+	}
+	if o.FailInst < 0 || o.FailInst >= len(o.Instances) {
+		return false, "no failing path instance"
+	}
+	dir := filepath.Join(cfg.Out, "replay", sanitize(o.Name))
+	os.RemoveAll(dir)
+	os.MkdirAll(dir, 0o755)
+	q := &modelQuery{reg: r.Reg, inst: o.Instances[o.FailInst], dir: dir, cache: map[string]*sx{}}
+	tpkg := fi.Pkg.Types
+	rf := &reifier{prog: prog, reg: r.Reg, q: q, pkg: tpkg, imports: map[string]string{}, objs: map[string]string{}, complete: true}
+	var terms []string
+	for _, e := range r.Entry {
+		rf.collect(e.Term, e.Type, 0, &terms)
+	}
+	if !q.get(terms) {
+		return false, "the solver gave no model for the failing path (" + firstLines(q.lastRaw, 2) + ")"
+	}
+	// candidate map keys: string literals of the query and string values of the model
+	keySet := map[string]bool{}
+	lit := regexp.MustCompile(`"(?:[^"]|"")*"`)
+	for _, f := range append(append([]string{}, q.inst.PC...), q.inst.Goal) {
+		for _, m := range lit.FindAllString(f, -1) {
+			keySet[m] = true
+		}
+	}
+	for _, v := range q.cache {
+		if !v.isL && strings.HasPrefix(v.atom, `"`) {
+			keySet[v.atom] = true
+		}
+	}
+	for k := range keySet {
+		rf.mapKeys = append(rf.mapKeys, k)
+	}
+	sort.Strings(rf.mapKeys)
+	if len(rf.mapKeys) > 40 {
+		rf.mapKeys = rf.mapKeys[:40]
+	}
+	argExpr := map[string]string{}
+	for _, e := range r.Entry {
+		argExpr[e.Role] = rf.build(e.Term, e.Type, 0)
+	}
+	sig := fi.Obj.Type().(*types.Signature)
+	// ---- test source
+	var b strings.Builder
+	var decls strings.Builder
+	w := func(f string, a ...interface{}) { fmt.Fprintf(&b, f+"\n", a...) }
+	for _, s := range rf.stmts {
+		w("\t%s", s)
+	}
+	// arguments
+	var callArgs []string
+	for i := 0; i < sig.Params().Len(); i++ {
+		name := fmt.Sprintf("a%d", i)
+		e, ok := argExpr[fmt.Sprintf("param%d", i)]
+		if !ok {
+			e = "*new(" + rf.typeStr(sig.Params().At(i).Type()) + ")"
+			rf.incomplete("parameter without entry value")
+		}
+		w("\tvar %s %s = %s", name, rf.typeStr(sig.Params().At(i).Type()), e)
+		w("\t_ = %s", name)
+		if sig.Variadic() && i == sig.Params().Len()-1 {
+			callArgs = append(callArgs, name+"...")
+		} else {
+			callArgs = append(callArgs, name)
+		}
+		if _, ok := sig.Params().At(i).Type().Underlying().(*types.Pointer); ok {
+			if _, ok := sig.Params().At(i).Type().Underlying().(*types.Pointer).Elem().Underlying().(*types.Struct); ok {
+				w("\treplaySnapshot(%s)", name)
+			}
+		}
+	}
+	callee := fi.Obj.Name()
+	if sig.Recv() != nil {
+		e, ok := argExpr["recv"]
+		if !ok {
+			return false, "receiver without entry value"
+		}
+		w("\tvar recv %s = %s", rf.typeStr(sig.Recv().Type()), e)
+		if pt, ok := sig.Recv().Type().Underlying().(*types.Pointer); ok {
+			if _, ok := pt.Elem().Underlying().(*types.Struct); ok {
+				w("\treplaySnapshot(recv)")
+			}
+		}
+		callee = "recv." + callee
+	}
+	// arguments of a specification function by role
+	zeroOf := func(t string) string { return "*new(" + t + ")" }
+	specArgs := func(sf *SpecFn, withResults bool) ([]string, string) {
+		pkg := prog.Pkgs[sf.Pkg]
+		var out []string
+		k := 0
+		for _, f := range sf.Decl.Type.Params.List {
+			ts := types.TypeString(pkg.TypesInfo.TypeOf(f.Type), rf.qual)
+			if _, isEll := f.Type.(*ast.Ellipsis); isEll {
+				return nil, "variadic clause parameter"
+			}
+			for range f.Names {
+				role := sf.Roles[k]
+				k++
+				kind := role[:strings.Index(role, ":")]
+				switch {
+				case kind == "recv":
+					out = append(out, "recv")
+				case strings.HasPrefix(kind, "param"):
+					var idx int
+					fmt.Sscanf(kind, "param%d", &idx)
+					out = append(out, fmt.Sprintf("a%d", idx))
+				case strings.HasPrefix(kind, "result"):
+					var idx int
+					fmt.Sscanf(kind, "result%d", &idx)
+					if withResults {
+						out = append(out, fmt.Sprintf("r%d", idx))
+					} else {
+						out = append(out, zeroOf(ts))
+					}
+				default:
+					out = append(out, zeroOf(ts))
+				}
+			}
+		}
+		return out, ""
+	}
+	// requires
+	nreq := 0
+	if fi.Con != nil {
+		for _, c := range fi.Con.Requires {
+			sf := prog.SpecFns[c.SpecFunc]
+			if sf == nil || sf.Decl == nil || sf.Decl.Type.TypeParams != nil {
+				return false, "a precondition of " + r.Key + " is not executable"
+			}
+			args, why := specArgs(sf, false)
+			if why != "" {
+				return false, why
+			}
+			w("\tcheckPre(%q, func() bool { return %s(%s) })", c.Text, sf.Name, strings.Join(args, ", "))
+			nreq++
+		}
+	}
+	// the clause
+	clauseCall := ""
+	if mode == "post" {
+		if o.Clause == nil {
+			return false, "obligation without a clause"
+		}
+		sf := prog.SpecFns[o.Clause.SpecFunc]
+		if sf == nil {
+			return false, "clause without specification function"
+		}
+		params, body, olds, why := prog.clauseSource(sf)
+		if why != "" {
+			return false, "clause not executable: " + why
+		}
+		args, why2 := specArgs(sf, true)
+		if why2 != "" {
+			return false, why2
+		}
+		argsPre, _ := specArgs(sf, false)
+		var oldSrc []string
+		for _, od := range olds {
+			oldSrc = append(oldSrc, "any("+od.src+")")
+		}
+		fmt.Fprintf(&decls, "func replayOldOf(%s) []any { return []any{%s} }\n", params, strings.Join(oldSrc, ", "))
+		sep := ", "
+		if strings.TrimSpace(params) == "" {
+			sep = ""
+		}
+		fmt.Fprintf(&decls, "func replayClause(%s%sreplayOld []any) bool { return %s }\n", params, sep, body)
+		w("\tvar replayOld []any")
+		w("\tguard(\"old-state\", func() { replayOld = replayOldOf(%s) })", strings.Join(argsPre, ", "))
+		clauseCall = fmt.Sprintf("replayClause(%s%sreplayOld)", strings.Join(args, ", "), sep)
+	}
+	// the call
+	var resNames []string
+	for i := 0; i < sig.Results().Len(); i++ {
+		resNames = append(resNames, fmt.Sprintf("r%d", i))
+		w("\tvar r%d %s", i, rf.typeStr(sig.Results().At(i).Type()))
+		w("\t_ = r%d", i)
+	}
+	assign := ""
+	if len(resNames) > 0 {
+		assign = strings.Join(resNames, ", ") + " = "
+	}
+	w("\tpanicked := guard(\"call\", func() { %s%s(%s) })", assign, callee, strings.Join(callArgs, ", "))
+	if mode == "post" {
+		w("\tif !panicked {")
+		w("\t\tguard(\"clause\", func() { fmt.Println(\"REPLAY clause =\", %s) })", clauseCall)
+		w("\t}")
+	}
+	var imps []string
+	rf.imports["fmt"] = "fmt"
+	rf.imports["testing"] = "testing"
+	// the clause text may mention any package the synthetic specification file of this package imports
+	impRe := regexp.MustCompile(`(?m)^\s*(\w+) "([^"]+)"$`)
+	if src := prog.SynthSrc[shortPkg(tpkg.Path())]; src != "" {
+		if i := strings.Index(src, "import ("); i >= 0 {
+			if j := strings.Index(src[i:], "\n)"); j >= 0 {
+				for _, m := range impRe.FindAllStringSubmatch(src[i:i+j], -1) {
+					if _, ok := rf.imports[m[2]]; !ok {
+						rf.imports[m[2]] = m[1]
+					}
+				}
+			}
+		}
+	}
+	bodyText := decls.String() + b.String()
+	for path, name := range rf.imports {
+		if name != "fmt" && name != "testing" && !regexp.MustCompile(`\b`+regexp.QuoteMeta(name)+`\.`).MatchString(bodyText) {
+			continue
+		}
+		imps = append(imps, fmt.Sprintf("\t%s %q", name, path))
+	}
+	sort.Strings(imps)
+	test := "package " + tpkg.Name() + "\n\nimport (\n" + strings.Join(imps, "\n") + "\n)\n\n" + decls.String() + `
+func TestVerifReplay(t *testing.T) {
+	preOK := true
+	guard := func(what string, f func()) (panicked bool) {
+		defer func() {
+			if r := recover(); r != nil {
+				panicked = true
+				fmt.Printf("REPLAY panic in %s: %v\n", what, r)
+			}
+		}()
+		f()
+		return false
+	}
+	checkPre := func(text string, f func() bool) {
+		ok := false
+		if guard("requires", func() { ok = f() }) || !ok {
+			preOK = false
+			fmt.Println("REPLAY requires not established:", text)
+		}
+	}
+	_ = checkPre
+` + b.String() + `	fmt.Println("REPLAY preOK =", preOK)
+}
+`
+	testFile := filepath.Join(dir, "zz_replay_verif_test.go")
+	os.WriteFile(testFile, []byte(test), 0o644)
+	overlay := map[string]string{filepath.Join(fi.Pkg.Dir, "zz_replay_verif_test.go"): testFile}
+	for short, src := range prog.SynthSrc {
+		f := filepath.Join(dir, "synth_"+sanitize(short)+".go")
+		os.WriteFile(f, []byte(execSynth(src)), 0o644)
+		overlay[filepath.Join(pkgDir(prog, short), "zz_spec_synth_verif.go")] = f
+	}
+	// contract files that only exist in the mirror
+	for short, f := range prog.CS.Files {
+		if !strings.HasPrefix(f, prog.Repo+"/") {
+			overlay[filepath.Join(pkgDir(prog, short), "zz_contracts_verif.go")] = f
+		}
+	}
+	ov, _ := json.Marshal(map[string]interface{}{"Replace": overlay})
+	ovFile := filepath.Join(dir, "overlay.json")
+	os.WriteFile(ovFile, ov, 0o644)
+	cmd := exec.Command("go", "test", "-tags", "verif", "-overlay", ovFile, "-vet=off", "-count=1", "-timeout", "60s", "-run", "^TestVerifReplay$", "-v", ".")
+	cmd.Dir = fi.Pkg.Dir
+	cmd.Env = append(os.Environ(), "GOFLAGS=-mod=mod", "GOPROXY=off", "GOSUMDB=off", "GOTOOLCHAIN=local")
+	var outb bytes.Buffer
+	cmd.Stdout, cmd.Stderr = &outb, &outb
+	start := time.Now()
+	done := make(chan error, 1)
+	go func() { done <- cmd.Run() }()
+	select {
+	case <-done:
+	case <-time.After(120 * time.Second):
+		if cmd.Process != nil {
+			cmd.Process.Kill()
+		}
+	}
+	out := outb.String()
+	os.WriteFile(filepath.Join(dir, "go-test-output.txt"), []byte(out), 0o644)
+	detail := map[string]interface{}{
+		"test_file":        testFile,
+		"overlay":          ovFile,
+		"command":          "cd " + fi.Pkg.Dir + " && go test -tags verif -overlay " + ovFile + " -vet=off -count=1 -run '^TestVerifReplay$' -v .",
+		"seconds":          time.Since(start).Seconds(),
+		"input_complete":   rf.complete,
+		"reification":      rf.notes,
+		"solver_rounds":    q.rounds,
+		"output":           firstLines(out, 40),
+	}
+	js, _ := json.MarshalIndent(detail, "", " ")
+	if !strings.Contains(out, "REPLAY preOK =") {
+		return false, "replay did not run to completion (build error or crash); " + string(js)
+	}
+	if !strings.Contains(out, "REPLAY preOK = true") {
+		return false, "the reified input does not establish the preconditions; " + string(js)
+	}
+	switch mode {
+	case "post":
+		if strings.Contains(out, "REPLAY clause = false") && !strings.Contains(out, "REPLAY panic in call") {
+			return true, "CONFIRMED: the real function returns normally on the reified counterexample and the clause evaluates to false; " + string(js)
+		}
+		return false, "the clause did not evaluate to false on the real code; " + string(js)
+	case "safety":
+		if strings.Contains(out, "REPLAY panic in call") && rf.complete {
+			return true, "CONFIRMED: the real function panics on the reified counterexample; " + string(js)
+		}
+		return false, "no panic observed on the real code (or the input was only partly reified); " + string(js)
+	}
+	return false, string(js)
+}
+
+func hasTypeParams(f *types.Func) bool {
+	sig := f.Type().(*types.Signature)
+	return sig.RecvTypeParams().Len() > 0 || sig.TypeParams().Len() > 0
 }
